@@ -1,10 +1,10 @@
 ID = 'C03'
 UNITS = {'enc': dict(wrap='wrap.cc', new_block=64)}
-BOUNDS = ('loop-free: every query covers ALL values of its operands (full 16/32/64 bits of value and of operand, IEEE bit patterns for '
+BOUNDS = ('loop-free: every query covers ALL values of its operands (full 16/32/64 bits of value and of operand - also when the operand type R differs from the exposed type -, IEEE bit patterns for '
           'float/double incl. NaN payloads, infinities, -0); one operator application per query')
 STUBS = []
 OUTSIDE = ['big-endian hosts (Platform.hh selects PHOSG_LITTLE_ENDIAN on x86-64; the other branch is not compiled)',
-           'operand types R other than the exposed type T and int in the templated compound operators (checked: R = T for every operator, R = int for += -= &= |= ^= <<= >>= on the integer wrappers)',
+           'operand types R outside {T, int32_t, uint32_t, int64_t, uint64_t, and float/double on the floating wrappers} in the templated compound operators (8/16-bit operands, floating operands on integer wrappers, long double)',
            'native-undefined operand combinations: division/modulo by zero, shift counts >= width, signed 32/64-bit overflow, MIN / -1',
            'sign_extend with a 64-bit source type (no wider result type exists; the expression 1 << 63 on int is undefined)',
            'NaN payload propagation is compared between the wrapper and the C reference under the same FP model (CBMC float model / host FPU), not against IEEE-754 text']
@@ -76,6 +76,6 @@ def queries(tier):
                 costly = ('mul', 'div') if flt else ('mul', 'div', 'mod')
                 for k in cheap + (costly if pre == 'be' else ()):
                     d2 = dict(defs); d2['OP'] = OPN[k]
-                    qs.append(Q('%s_x_%s_%s' % (w, r, k), 'h_mixed.c', d2, unwind=10, bounds=bnd, backend='z3', cost=300 if k in costly else 50,
+                    qs.append(Q('%s_x_%s_%s' % (w, r, k), 'h_mixed.c', d2, unwind=10, bounds=bnd, backend='' if flt else 'z3', flags=['--cvc5'] if flt else [], cost=300 if k in costly else 50,
                                 desc='%s %s= (%s)d: object bytes and returned value vs the native usual-arithmetic-conversion result, both operands symbolic' % (w, k, r)))
     return qs
